@@ -22,6 +22,7 @@ type witness struct {
 	Want     []h264.Elem `json:"want"`
 	Size     int         `json:"size,omitempty"` // slice header: bytes the header occupies
 	Hazards  []string    `json:"hazards,omitempty"`
+	Prior    []string    `json:"prior_slices,omitempty"` // slices parsed earlier against the same parameter-set maps, in order
 	Branches []string    `json:"branches,omitempty"`
 	Record   interface{} `json:"record,omitempty"` // the value record (informational)
 }
